@@ -241,6 +241,21 @@ class _Objects:
             return self.objs(e.body, st) | self.objs(e.orelse, st)
         if isinstance(e, ast.NamedExpr):
             return self.objs(e.value, st)
+        if isinstance(e, ast.Attribute) and isinstance(e.value, ast.Name):
+            # a field of a record returned by a summarised helper: `counts.above`
+            out = set()
+            for o in st.get(e.value.id, ()):
+                if o[0] == "record":
+                    out.add(("field", o[1], o[2], e.attr))
+                    for g, grp in enumerate(self.summaries.get(o[3], ())):
+                        if e.attr in grp:
+                            out.add(("shared", o[1], o[2], g, o[3]))
+            return out
+        if isinstance(e, ast.Call) and not _np_call(e):
+            f = e.func
+            nm = f.id if isinstance(f, ast.Name) else f.attr if isinstance(f, ast.Attribute) else None
+            if any(isinstance(k, str) for grp in self.summaries.get(nm, ()) for k in grp):
+                return {("record", e.lineno, e.col_offset, nm)}      # the helper hands back a record whose fields may be one array
         if _np_call(e):
             if e.func.attr in ("asarray", "asanyarray", "ascontiguousarray") and e.args:
                 return self.objs(e.args[0], st) | {("site", e.lineno, e.col_offset)}
@@ -286,6 +301,14 @@ def _returned_sharing(fn_node):
                 if len(grp) > 1 and grp not in groups:
                     groups.append(grp)
             return st
+        if isinstance(x, ast.Return) and isinstance(x.value, ast.Call) and x.value.keywords and not _np_call(x.value):
+            # a record built in the return statement: Record(below=none, above=none)
+            items = [(k.arg, an.objs(k.value, st)) for k in x.value.keywords if k.arg is not None]
+            for name_i, set_i in items:
+                grp = {name_j for name_j, set_j in items if set_i & set_j}
+                if len(grp) > 1 and grp not in groups:
+                    groups.append(grp)
+            return st
         if isinstance(x, ast.Assign):
             v = an.objs(x.value, st)
             for t in x.targets:
@@ -305,12 +328,26 @@ def _returned_sharing(fn_node):
     return groups
 
 
-def shared_buffer_findings(fn_node, helpers):
+def _record_class_of(fn_node):
+    """Name of the class a helper builds in its return statement (`return _Counts(below=..., above=...)`), else None."""
+    for n in ast.walk(fn_node):
+        if isinstance(n, ast.Return) and isinstance(n.value, ast.Call) and isinstance(n.value.func, ast.Name) and n.value.keywords:
+            return n.value.func.id
+    return None
+
+
+def shared_buffer_findings(fn_node, helpers, classes=None):
     """[(line, text)] for in-place updates of a local array that a second, later-read name may also be bound to.
-    helpers: {bare name: FunctionDef} of the functions callable from fn_node whose returned tuples are summarised."""
+    helpers: {bare name: FunctionDef} of the functions callable from fn_node whose returned tuples are summarised.
+    classes: {name: ClassDef} - record classes, for fields read back through a property of the record."""
     summaries = {}
+    record_of = {}
     for nm, node in helpers.items():
         g = _returned_sharing(node)
+        rc = _record_class_of(node)
+        if rc is not None:
+            record_of[nm] = rc
+            g = g or [{"__record__"}]       # a record without shared fields: still a record whose fields can be written through
         if g:
             summaries[nm] = g
     an = _Objects(summaries)
@@ -320,10 +357,60 @@ def shared_buffer_findings(fn_node, helpers):
             loads.setdefault(n.id, []).append(n.lineno)
     out = []
 
+    # loads of record attributes with the branch conditions they sit under: `x = r.a if c else r.b` reads r.a only on the c-arm
+    attr_loads = {}
+
+    def collect(n, conds):
+        if isinstance(n, ast.Attribute) and isinstance(n.value, ast.Name) and isinstance(n.ctx, ast.Load):
+            attr_loads.setdefault(n.value.id, []).append((n.lineno, n.attr, tuple(conds)))
+        if isinstance(n, ast.IfExp):
+            t = ast.unparse(n.test)
+            collect(n.test, conds)
+            collect(n.body, conds + [(t, True)])
+            collect(n.orelse, conds + [(t, False)])
+            return
+        if isinstance(n, ast.If):
+            t = ast.unparse(n.test)
+            collect(n.test, conds)
+            for c_ in n.body:
+                collect(c_, conds + [(t, True)])
+            for c_ in n.orelse:
+                collect(c_, conds + [(t, False)])
+            return
+        for c_ in ast.iter_child_nodes(n):
+            collect(c_, conds)
+    collect(fn_node, [])
+
+    def property_reads(cls_name, prop, field):
+        cd = (classes or {}).get(cls_name)
+        if cd is None:
+            return False
+        for x in cd.body:
+            if isinstance(x, ast.FunctionDef) and x.name == prop:
+                return any(isinstance(y, ast.Attribute) and isinstance(y.value, ast.Name) and y.value.id == "self" and y.attr == field for y in ast.walk(x))
+        return False
+
     def updated(name, st, line, how, in_loop):
         mine = st.get(name, set())
         if not mine:
             return
+        # the name holds a FIELD of a record that is read again later - the same field, or a property of the record computed from it
+        for o in mine:
+            if o[0] != "field":
+                continue
+            for rname, robjs in st.items():
+                rec = next((r for r in robjs if r[0] == "record" and r[1:3] == o[1:3]), None)
+                if rec is None:
+                    continue
+                pc = st.get("__pc__", set())
+                for ln, attr, conds in attr_loads.get(rname, ()):
+                    if not (ln > line or in_loop):
+                        continue
+                    if any((t_, not arm_) in pc for t_, arm_ in conds):
+                        continue        # the read sits on the other arm of a test this path has already decided
+                    if attr == o[3] or property_reads(record_of.get(rec[3]), attr, o[3]):
+                        out.append((line, "%s of `%s` writes into the record field `%s.%s`, which `%s.%s` (line %d) is read from afterwards" % (how, name, rname, o[3], rname, attr, ln)))
+                        break
         for other, objs in st.items():
             if other == name or not (objs & mine):
                 continue
@@ -362,10 +449,15 @@ def shared_buffer_findings(fn_node, helpers):
             if isinstance(x.value, ast.IfExp):
                 # `a, b = (x, y) if c else (y, x)`: one state per arm (the arms never hold together)
                 out_ = []
-                for arm in (x.value.body, x.value.orelse):
+                t_ = ast.unparse(x.value.test)
+                for arm, val_ in ((x.value.body, True), (x.value.orelse, False)):
+                    if (t_, not val_) in st.get("__pc__", set()):
+                        continue        # this arm contradicts a test the path has already decided
                     y = ast.Assign(targets=x.targets, value=arm)
                     ast.copy_location(y, x)
-                    out_ += stmt(y, copy(st), in_loop)
+                    s2 = copy(st)
+                    s2["__pc__"] = set(s2.get("__pc__", set())) | {(t_, val_)}
+                    out_ += stmt(y, s2, in_loop)
                 return out_
             if len(x.targets) == 1 and isinstance(x.targets[0], (ast.Tuple, ast.List)) and all(isinstance(t, ast.Name) for t in x.targets[0].elts):
                 sets = an.tuple_objs(x.value, st, len(x.targets[0].elts))
@@ -394,7 +486,15 @@ def shared_buffer_findings(fn_node, helpers):
                     updated(k.value.id, st, x.lineno, "out=", in_loop)
             return [st]
         if isinstance(x, ast.If):
-            return block(x.body, [copy(st)], in_loop) + block(x.orelse, [copy(st)], in_loop)
+            t_ = ast.unparse(x.test)
+            outs_ = []
+            for body_, val_ in ((x.body, True), (x.orelse, False)):
+                if (t_, not val_) in st.get("__pc__", set()):
+                    continue
+                s2 = copy(st)
+                s2["__pc__"] = set(s2.get("__pc__", set())) | {(t_, val_)}
+                outs_ += block(body_, [s2], in_loop)
+            return outs_
         if isinstance(x, (ast.For, ast.While)):
             states = [st]
             for _ in range(2):
